@@ -697,34 +697,79 @@ func verdictOf(f func() bool) string {
 	return v
 }
 
-func runApcCases(w *permWorld, out *c.Out, r *c.Rng, n int) {
+// emitApc evaluates one (rule, incoming document) on the real checker and, if accepted, the real params
+// handler, and writes the case line.
+func emitApc(w *permWorld, out *c.Out, s *paramSpec, a ctypes.AllowedParamsChange, inc string, sigPrefix string, commit bool) string {
 	pk := w.tApp.GetParamsKeeper()
+	raw, found := w.raw(s.subspace, s.key)
+	change := paramsproposal.ParamChange{Subspace: s.subspace, Key: s.key, Value: inc}
+	verdict := verdictOf(func() bool { return ctypes.VerifAllowsParamChange(a, w.ctx, change, pk) })
+	handler, after := "skip", "-"
+	if verdict == "yes" {
+		cls, aft := w.applyObserve(s.subspace, s.key, inc, commit)
+		handler = string(cls)
+		if cls == kapp.OK {
+			after = encodeDoc(aft)
+		}
+	}
+	sig := ""
+	if sigPrefix != "" {
+		sig = sigPrefix + "|" + verdict + "|" + handler
+	}
+	out.Note("apc-verdict-" + verdict)
+	out.Note("apc-handler-" + handler)
+	out.Case(sig, "c17.apc", encAPC(a), hx(s.subspace), hx(s.key), s.top, encSchema(s.fields), curField(raw, found), encodeDoc(inc), "=>", verdict, handler, after)
+	return verdict
+}
+
+func (w *permWorld) spec(subspace, key string) *paramSpec {
+	for _, s := range w.specs {
+		if s.subspace == subspace && s.key == key {
+			return s
+		}
+	}
+	panic("c17: no such spec")
+}
+
+// runFormerFindings replays, on the fixture state, the two witnesses that were accepted before the
+// fix: commits 0a0bfec58 / 060540892 (findings/C17-omitted-field-set.md, C17-record-replaced.md). If
+// either is accepted again the ordinary predicate of c17.apc reports it.
+func runFormerFindings(w *permWorld, out *c.Out) {
+	// 1. drop the allow-listed `oracles`, add the omitted `active`
+	pf := w.spec("pricefeed", "Markets")
+	a1 := ctypes.AllowedParamsChange{Subspace: "pricefeed", Key: "Markets", MultiSubparamsRequirements: []ctypes.SubparamRequirement{
+		{Key: "market_id", Val: "bnb:usd", AllowedSubparamAttrChanges: []string{"oracles"}},
+		{Key: "market_id", Val: "btc:usd", AllowedSubparamAttrChanges: []string{"oracles"}}}}
+	inc1 := `[{"market_id":"bnb:usd","base_asset":"bnb","quote_asset":"usd","oracles":["` + deputy + `"],"active":true},` +
+		`{"market_id":"btc:usd","base_asset":"btc","quote_asset":"usd","active":true}]`
+	out.Note("former-finding-omitted-field-set-" + emitApc(w, out, pf, a1, inc1, "former-omitted-field-set", false))
+	// 2. bnb-a and bnb-b differ only in `type`; requirement keyed on the shared spot market with `type` allow-listed
+	cp := w.spec("cdp", "CollateralParams")
+	a2 := ctypes.AllowedParamsChange{Subspace: "cdp", Key: "CollateralParams", MultiSubparamsRequirements: []ctypes.SubparamRequirement{
+		{Key: "spot_market_id", Val: "bnb:usd", AllowedSubparamAttrChanges: []string{"type", "debt_limit"}},
+		{Key: "spot_market_id", Val: "btc:usd", AllowedSubparamAttrChanges: []string{"debt_limit"}}}}
+	cur, _ := parseTree(cp.initial)
+	doc := cur.clone()
+	doc.arr[0].vals[doc.arr[0].find("spot_market_id")] = nStr("bnb:usd2")
+	out.Note("former-finding-record-replaced-" + emitApc(w, out, cp, a2, doc.String(), "former-record-replaced", false))
+}
+
+func runApcCases(w *permWorld, out *c.Out, r *c.Rng, n int) {
+	runFormerFindings(w, out)
 	for i := 0; i < n; i++ {
 		s := c.Pick(r, w.specs)
 		if s.top == "O" && r.Chance(70) {
 			s = c.Pick(r, w.specs)
 		}
-		raw, found := w.raw(s.subspace, s.key)
+		raw, _ := w.raw(s.subspace, s.key)
 		cur, _ := parseTree(raw)
 		a, pclass := genAPC(r, s, cur)
 		inc, mclass := genIncoming(r, s, cur, a)
-		change := paramsproposal.ParamChange{Subspace: s.subspace, Key: s.key, Value: inc}
-		verdict := verdictOf(func() bool { return ctypes.VerifAllowsParamChange(a, w.ctx, change, pk) })
-		handler, after := "skip", "-"
-		if verdict == "yes" {
-			cls, aft := w.applyObserve(s.subspace, s.key, inc, r.Chance(30))
-			handler = string(cls)
-			if cls == kapp.OK {
-				after = encodeDoc(aft)
-			}
-		}
 		sig := ""
 		if mclass != "none" && mclass != "same" {
-			sig = s.top + "|" + pclass + "|" + mclass + "|" + verdict + "|" + handler
+			sig = s.top + "|" + pclass + "|" + mclass
 		}
-		out.Note("apc-verdict-" + verdict)
-		out.Note("apc-handler-" + handler)
-		out.Case(sig, "c17.apc", encAPC(a), hx(s.subspace), hx(s.key), s.top, encSchema(s.fields), curField(raw, found), encodeDoc(inc), "=>", verdict, handler, after)
+		emitApc(w, out, s, a, inc, sig, r.Chance(30))
 		// keep the world varied but healthy: now and then restore a fixture through governance
 		if r.Chance(2) {
 			w.apply(s.subspace, s.key, s.initial, true)
